@@ -159,6 +159,8 @@ def build_path(t, source_data=None):
 
 
 def build_cast(cast):
+    if cast == "empty":      # a declared-but-empty cast mapping
+        return {}
     if not cast:
         return None
     return {CAST_DTYPE_LOOKUP[a]: CAST_LOOKUP[(CAST_DTYPE_LOOKUP[a], CAST_DTYPE_LOOKUP[b])]
@@ -166,7 +168,7 @@ def build_cast(cast):
 
 
 def rule(path_t, cond_t, cast=(), doc=None):
-    return ("rule", path_t, cond_t, tuple(cast), doc)
+    return ("rule", path_t, cond_t, cast if isinstance(cast, str) else tuple(cast), doc)
 
 
 def build_rule(t):
